@@ -175,6 +175,27 @@ Definition step (enum : tagmap -> tagmap) (p : addr) (st : dstate) (i : nat) : d
 Definition run (enum : tagmap -> tagmap) (p : addr) (st : dstate) (sched : list nat) : dstate :=
   fold_left (step enum p) sched st.
 
+(* ---------- the "lazy copy" variant, for the refutation witness only ----------
+   hSet.dispatch hands the ORIGINAL *Line to the handler when its set has exactly one handler for
+   the event ("a lone handler has nobody to share the line with"): [lone i] says that thread i is
+   such a handler.  Everything else is [step]. *)
+Definition step_lazy (lone : nat -> bool) (enum : tagmap -> tagmap) (p : addr) (st : dstate) (i : nat) : dstate :=
+  match nth_error (d_threads st) i with
+  | Some t =>
+      match th_line t, lone i with
+      | None, true =>
+          match read_line (d_heap st) p with
+          | Ok v => {| d_heap := d_heap st;
+                       d_threads := lupd (d_threads st) i {| th_line := Some p; th_entry := Some v; th_prog := th_prog t |};
+                       d_fault := d_fault st |}
+          | Panic => {| d_heap := d_heap st; d_threads := d_threads st; d_fault := true |}
+          end
+      | _, _ => step enum p st i
+      end
+  | None => st
+  end.
+Definition run_lazy lone enum p st (sched : list nat) : dstate := fold_left (step_lazy lone enum p) sched st.
+
 (* ---------- value equality and the property predicate ---------- *)
 Definition lval_eqb (a b : lval) : bool :=
   list_beq (v_scal a) (v_scal b) && list_beq (v_args a) (v_args b) && opt_tags_eqb (v_tags a) (v_tags b).
